@@ -384,6 +384,53 @@ def reuse_body(case, ctx):
     ctx.nt(not isinstance(fresh, str) and (isinstance(first, str) or bool(first_warn) or case["first"]["pops"] != case["second"]["pops"]))
 
 
+# ---------------------------------------------------------------- large data sets
+def large_body(case, ctx):
+    """tens of thousands of points in up to 1 600 blocks: the split invariants by vectorised set logic"""
+    e, n, labels, region, spacing = blocks.big_cloud(case)
+    keep = (e > region[0]) & (e < region[1]) & (n > region[2]) & (n < region[3])
+    e, n, labels = e[keep], n[keep], labels[keep]
+    # corner points pin the inferred region to the block grid's region
+    e = np.concatenate([[region[0], region[1]], e])
+    n = np.concatenate([[region[2], region[3]], n])
+    labels = np.concatenate([[0, case["nb_n"] * case["nb_e"] - 1], labels])
+    X = np.column_stack([e, n])
+    occupied = np.unique(labels)
+    if occupied.size < 2:
+        ctx.skip("fewer_than_two_blocks")
+    kw = dict(spacing=spacing) if case["by"] == "spacing" else dict(shape=(case["nb_n"], case["nb_e"]))
+    n_splits = int(min(5, occupied.size))
+    pops = np.bincount(labels)
+    for name, cv in (("BlockKFold", vd.BlockKFold(n_splits=n_splits, shuffle=True, random_state=case["seed"] % 997, **kw)),
+                     ("BlockKFold(balance=False)", vd.BlockKFold(n_splits=n_splits, balance=False, **kw)),
+                     ("BlockShuffleSplit", vd.BlockShuffleSplit(n_splits=3, test_size=0.25, random_state=case["seed"] % 997, **kw))):
+        with warnings.catch_warnings(record=True) as rec:
+            warnings.simplefilter("always")
+            splits = [(np.asarray(a), np.asarray(b)) for a, b in cv.split(X)]
+        warned = any("balance" in str(w.message) for w in rec)
+        ctx.check(len(splits) == (3 if name == "BlockShuffleSplit" else n_splits), "%s yielded %d splits", name, len(splits))
+        seen = np.zeros(X.shape[0], dtype=int)
+        for k, (train, test) in enumerate(splits):
+            ctx.check(test.size > 0 and train.size > 0, "%s split %d has an empty side", name, k)
+            both = np.zeros(X.shape[0], dtype=int)
+            both[train] += 1
+            both[test] += 1
+            ctx.check(np.all(both == 1), "%s split %d is not a partition of the %d samples", name, k, X.shape[0])
+            shared = np.intersect1d(labels[train], labels[test])
+            ctx.check(shared.size == 0, "%s split %d: %d blocks contribute points to both sides (e.g. block %s)", name, k, shared.size, shared[:3].tolist())
+            seen[test] += 1
+            if name == "BlockKFold" and not warned:
+                bound = pops.max() + n_splits
+                ctx.check(abs(test.size - X.shape[0] / n_splits) <= bound, "balanced fold %d has %d of %d points (bound %d)", k, test.size, X.shape[0], bound)
+            if name == "BlockShuffleSplit":
+                ntest = np.unique(labels[test]).size
+                ctx.check(ntest == int(np.ceil(0.25 * occupied.size)), "BlockShuffleSplit tests %d of %d blocks for test_size=0.25", ntest, occupied.size)
+        if name != "BlockShuffleSplit":
+            ctx.check(np.all(seen == 1), "%s: the test folds do not cover every sample exactly once", name)
+    ctx.label("n%d" % X.shape[0], case["by"], "blocks%d" % min(occupied.size, 1000))
+    ctx.nt(occupied.size >= 4)
+
+
 SUBCHECKS = [
     Sub("kfold_lattice", kfold_body, enumerate=kfold_lattice, shards_quick=16,
         doc="exhaustive small block-occupancy vectors x n_splits x shuffle x balance (x seeds): partition, whole blocks, non-empty disjoint folds, balance/fallback, rejection"),
@@ -395,4 +442,6 @@ SUBCHECKS = [
         doc="partition_by_sum over every small array and part count: parts-1 strictly increasing interior indices, part sums within one element of total/parts, or a refusal"),
     Sub("reuse", reuse_body, strategy=reuse_cases(), quick=300, thorough=2500, shards_quick=2,
         doc="one splitter object asked to split two different data sets: the second answer (splits, warnings or error) equals that of a fresh object with the same parameters"),
+    Sub("large", large_body, strategy=blocks.big_cases, quick=6, thorough=40, heavy=True,
+        doc="20 000 - 120 000 points in up to 1 600 blocks: partition, whole blocks, fold count, coverage, balance bound, prescribed number of test blocks"),
 ]
